@@ -564,7 +564,7 @@ pub fn run(cx: &mut Ctx) {
     cx.check(
         "ib-rank-select",
         RULE,
-        Budget { quick: 60_000, thorough: 2_000_000, max_len: 6000 },
+        Budget { quick: 300_000, thorough: 6_000_000, max_len: 6000 },
         |u, st| {
             let (text, cls) = any_text(u, max_text);
             st.describe(|| crate::props::c06::text_json(&text));
@@ -578,7 +578,7 @@ pub fn run(cx: &mut Ctx) {
     cx.check(
         "node-positions",
         RULE,
-        Budget { quick: 40_000, thorough: 1_000_000, max_len: if thorough { 30_000 } else { 10_000 } },
+        Budget { quick: 160_000, thorough: 3_000_000, max_len: if thorough { 30_000 } else { 10_000 } },
         |u, st| {
             let deep = u.ratio(1, 12);
             let o = GenOpts {
